@@ -39,7 +39,7 @@ def run(tier):
             p = os.path.join(work, f"c{c}")
             open(p, "wb").write(data)
             hexes[vlib.run_cmd([bins["vh_lib"], "b3", p]).stdout.decode().strip()[:12]] = c
-        nh, nr = (60, 40) if tier == "quick" else (1500, 600)
+        nh, nr = (60, 40) if tier == "quick" else (6000, 2500)
         hist_jobs = [(vlib.seed() * 100 + i, 6) for i in range(nh)]
         race_jobs = [(vlib.seed() * 77 + i, "path" if i % 2 == 0 else "host", "stage" if i % 4 < 2 else "flock") for i in range(nr)]
         recs = hs.run_all(copia, shim, SHIMDIR, os.path.join(work, "x"), hexes, hist_jobs, race_jobs,
